@@ -17,12 +17,11 @@ use rand::{rngs::StdRng, SeedableRng};
 use serde_json::json;
 use shred::{DefaultProvider, PanicHandler, Read, ReadExpect, Resource, ResourceId, SystemData, World, Write, WriteExpect};
 use shredh::{
-    record::write_events,
     zoo::{self, *},
     Args,
 };
 
-include!(concat!(env!("CARGO_MANIFEST_DIR"), "/gen-out/zoo_cases.rs"));
+include!(concat!(env!("CARGO_MANIFEST_DIR"), "/gen-out/", env!("CARGO_BIN_NAME"), "_cases.rs"));
 
 fn main() {
     shredh::quiet_panics();
@@ -59,12 +58,12 @@ fn main() {
         if samples.len() < 2 && (ops.id as u64 + seed) % 97 == 0 {
             samples.push(json!({"ty": d.ty, "origin": d.origin, "events": ev.iter().skip(1).take(4).collect::<Vec<_>>()}));
         }
-        write_events(&mut w, &ev);
+        zoo::write_zoo_events(&mut w, &ev);
     }
     w.flush().unwrap();
     println!(
         "{}",
-        json!({"hash": GEN_HASH, "cases": st.cases, "events": st.events, "fetch_runs": st.fetch_runs, "setup_runs": st.setup_runs,
+        json!({"hash": GEN_HASH, "cases": st.cases, "events": st.events, "fetch_runs": st.fetch_runs, "setup_runs": st.setup_runs, "exec_runs": st.exec_runs,
                "fetch_ok": st.fetch_ok, "fetch_missing": st.fetch_missing, "fetch_borrow": st.fetch_borrow,
                "fetch_other": st.fetch_other, "with_held": st.with_held, "model_runs": st.model_runs,
                "model_matched": st.model_matched, "model_mismatch": st.model_mismatch,
